@@ -38,16 +38,17 @@ func (w *World) AddKDC(proto, addr, behave string, reply []byte) *KDC {
 				return
 			}
 			answered = true
+			reply := k.ReplyFor(k.Got[idx])
 			switch k.Behave {
 			case "reply-close":
-				e.Send(k.Reply)
+				e.Send(reply)
 				e.Shut()
 			case "reply-open":
-				e.Send(k.Reply)
+				e.Send(reply)
 			case "partial":
-				e.Send(k.Reply[:len(k.Reply)/2])
+				e.Send(reply[:len(reply)/2])
 			case "partial-close":
-				e.Send(k.Reply[:len(k.Reply)/2])
+				e.Send(reply[:len(reply)/2])
 				e.Shut()
 			case "close":
 				e.Shut()
@@ -61,4 +62,20 @@ func (w *World) AddKDC(proto, addr, behave string, reply []byte) *KDC {
 
 func (k *KDC) String() string {
 	return fmt.Sprintf("%s/%s/%s(conns=%d)", k.Proto, k.Addr, k.Behave, k.Accepted)
+}
+
+// ReplyFor is the reply this KDC gives to a request: its fixed body followed by the last
+// bytes of the request, so that replies to different requests are distinguishable.  Over
+// TCP the reply carries the 4-byte length prefix.
+func (k *KDC) ReplyFor(req []byte) []byte {
+	tag := req
+	if len(tag) > 12 {
+		tag = tag[len(tag)-12:]
+	}
+	if k.Proto == "udp" {
+		return append(append([]byte{}, k.Reply...), tag...)
+	}
+	body := append(append([]byte{}, k.Reply[4:]...), tag...)
+	out := []byte{byte(len(body) >> 24), byte(len(body) >> 16), byte(len(body) >> 8), byte(len(body))}
+	return append(out, body...)
 }
